@@ -54,9 +54,11 @@ def np_axioms():
                                 DT_OF_NAME(NAME(d)) == NATIVE(d)), patterns=[NAME(d)]),
       z3.ForAll([d], NATIVE(NATIVE(d)) == NATIVE(d)),
       # the array-protocol type string denotes exactly that dtype (byte order included)
-      z3.ForAll([d], z3.Implies(z3.And(z3.Not(STRUCT(d)), z3.Not(HASOBJ(d))),
+      # ... for the built-in numeric dtypes; an extension dtype such as bfloat16 has the type string '<V2', which names a void dtype
+      z3.ForAll([d], z3.Implies(z3.And(z3.Not(STRUCT(d)), z3.Not(HASOBJ(d)), d != BF16),
                                 z3.And(DT_OF_NAME(STRNAME(d)) == d, z3.Not(ISBF16(STRNAME(d))))),
                 patterns=[STRNAME(d)]),
+      z3.And(DT_OF_NAME(STRNAME(BF16)) != BF16, z3.Not(ISBF16(STRNAME(BF16)))),
       # structured dtypes: the name ('void96') denotes a plain void dtype, never the structured one
       z3.ForAll([d], z3.Implies(STRUCT(d), z3.And(DT_OF_NAME(NAME(d)) != d,
                                                   DT_OF_NAME(NAME(d)) != NATIVE(d),
@@ -374,6 +376,7 @@ def build(p):
              '_msgpack_ext_unpack', '_bytes_ndarray_to_bytes', '_object_ndarray_from_bytes',
              'msgpack_serialize', 'msgpack_deserialize'):
     p.native(fn, D, 'roundtrip')
+  p.native('np_axioms', D, 'axioms')     # the assumed NumPy facts are themselves tested on concrete dtypes on every run
   g, codes = globals_(p)
   exs = {n: p.extract(F, n) for n in (
       '_ndarray_to_bytes', '_dtype_from_name', '_ndarray_from_bytes', '_bytes_ndarray_to_bytes',
